@@ -233,8 +233,14 @@ func (mw *msgWriter) writeGenHeader(msg *Msg) {
 // Parameters:
 //   - msg: The Msg object containing the preformatted headers to be written.
 func (mw *msgWriter) writePreformattedGenHeader(msg *Msg) {
-	for key, val := range msg.preformHeader {
-		line := fmt.Sprintf("%s: %s%s", key, val, SingleNewLine)
+	// sorted, so that every render emits the header fields in the same order
+	keys := make([]string, 0, len(msg.preformHeader))
+	for key := range msg.preformHeader {
+		keys = append(keys, string(key))
+	}
+	sort.Strings(keys)
+	for _, key := range keys {
+		line := fmt.Sprintf("%s: %s%s", key, msg.preformHeader[Header(key)], SingleNewLine)
 		mw.writeString(line)
 		msg.headerCount += strings.Count(line, SingleNewLine)
 	}
@@ -339,11 +345,15 @@ func (mw *msgWriter) addFiles(files []*File, isAttachment bool) {
 				mw.encoder.Encode(mw.charset.String(), sanitizeFilename(file.Name))))
 		}
 
-		if _, ok := file.getHeader(HeaderContentTransferEnc); !ok {
+		if cte, ok := file.getHeader(HeaderContentTransferEnc); !ok {
 			if file.Enc != "" {
 				encoding = file.Enc
 			}
 			file.setHeader(HeaderContentTransferEnc, string(encoding))
+		} else {
+			// the header has been set by an earlier render; the body has to be encoded the
+			// way the header announces it
+			encoding = Encoding(cte)
 		}
 
 		if file.Desc != "" {
@@ -367,8 +377,14 @@ func (mw *msgWriter) addFiles(files []*File, isAttachment bool) {
 			}
 		}
 		if mw.depth == 0 {
-			for header, val := range file.Header {
-				mw.writeHeader(Header(header), val...)
+			// sorted, so that every render emits the header fields in the same order
+			headers := make([]string, 0, len(file.Header))
+			for header := range file.Header {
+				headers = append(headers, header)
+			}
+			sort.Strings(headers)
+			for _, header := range headers {
+				mw.writeHeader(Header(header), file.Header[header]...)
 			}
 			mw.writeString(SingleNewLine)
 		}
